@@ -10,7 +10,9 @@ Import ListNotations.
 (* SStopBusy: stop() is called while the main thread is busy inside a request handler (can_handle /
    prepare_context run on the main thread); the handler is released only after it has been observed
    whether stop() returned in the meantime *)
-Inductive sop := SStart | SStop | SRequest | STick | SStopBusy.
+(* SStartFail: start() while a foreign socket holds the port: the call raises unless the server is already
+   running (then it returns at once); observation: did it raise *)
+Inductive sop := SStart | SStop | SRequest | STick | SStopBusy | SStartFail.
 
 Section Seq.
   Variables (G PC OP : Type).
@@ -19,7 +21,7 @@ Section Seq.
   Variable mstep : G -> option G.
   Variable is_idle : PC -> bool.
   Variable idle : PC.
-  Variables (op_start op_stop : OP).
+  Variables (op_start op_stop op_startf : OP).
   Variable view : G -> list nat.       (* [a call raised / internal error; listening socket open; main thread alive] *)
   Variable busy : G -> G.              (* the main thread moves into the request handler (if it is in its loop) *)
   Variable alive : G -> bool.          (* the main thread is alive *)
@@ -67,6 +69,10 @@ Section Seq.
     | SStop => match call gl op_stop with Some g' => Some (g', view g' ++ [0; 0]) | None => None end
     | SRequest => Some (gl, view gl ++ [serving gl; 0])
     | STick => let g' := match mstep gl with Some g' => g' | None => gl end in Some (g', view g' ++ [0; 0])
+    | SStartFail => match call gl op_startf with
+                    | Some g' => Some (g', view g' ++ [if alive gl then 0 else 1; 0])
+                    | None => None
+                    end
     | SStopBusy => match call_busy gl with
                    | Some (g', early) => Some (g', view g' ++ [if early then 1 else 0; 0])
                    | None => None
@@ -89,7 +95,7 @@ Definition spec_next (r : bool) (o : sop) : bool :=
 Definition b2 (b : bool) : nat := if b then 1 else 0.
 Definition spec_obs (r : bool) (o : sop) : list nat :=
   let r' := spec_next r o in
-  [0; b2 r'; b2 r'; match o with SRequest => b2 r' | _ => 0 end; 0].
+  [0; b2 r'; b2 r'; match o with SRequest => b2 r' | SStartFail => b2 (negb r) | _ => 0 end; 0].
 Fixpoint spec_run (r : bool) (h : list sop) : list (list nat) :=
   match h with
   | [] => []
